@@ -222,7 +222,23 @@ def extra(ctx, avh, avm, tier, seed):
         ctx.samples.append({"fuzzer_stat": [l for l in stats if l.startswith("STAT family") or l.startswith("STAT cases")][:8]})
 
 
+def _use_mutant_binaries():
+    """mutation self-test (tools/c12_mutants.py): run the whole check on pre-built binaries of a privately mutated copy of
+    /repo instead of building the shared harness"""
+    a, b = os.environ.get("C12_MUTANT_AVH"), os.environ.get("C12_MUTANT_AVH_HOOKS")
+    if not a:
+        return
+
+    def hb(ctx, hooks=False, timeout=1800):
+        p = b if hooks else a
+        ctx.oblige("build:harness%s (MUTANT binary %s)" % ("+hooks" if hooks else "", p), bool(p) and os.path.exists(p))
+        return p if p and os.path.exists(p) else None
+
+    lib.harness_build = hb
+
+
 def run(tier, seed):
+    _use_mutant_binaries()
     return treecommon.run_tree_property(
         PID, tier, seed, "Properties/C12.v", enable="serialize", extra_check=extra,
         rule_extra="C12 adds: (1) lock half = Coq verdict self_ok/balanced on hook traces (locks_common.lock_half); (2) avh panics fuzz: "
